@@ -26,7 +26,7 @@ PROPS = {
                         "native stack overflow (F17) and allocation failure are runtime behaviour outside the model; each generated case runs under catch_unwind, the witnesses in their own process"],
     },
     "C10": {
-        "modules": ["C10"],
+        "modules": ["C10", "C10Struct"],
         "streams": [{"name": "exec", "quick": 2500, "thorough": 180000}, {"name": "codec", "quick": 200, "thorough": 6000}],
         # results, step counts and weights - not the cost accounting (executed weight, flattened bytes), which is C11's
         "projection": "exec_semantics",
@@ -129,14 +129,14 @@ PROPS = {
         # the property fixes which batches / blocks are accepted: an input on which the implementation accepts what the
         # proved model rejects (or the other way round) is an input on which the property fails
         "verdict_is_spec": True,
-        "modules": ["C06"],
+        "modules": ["C06", "C06Hist"],
         "streams": [{"name": "chain", "quick": 120, "thorough": 4000}],
         "projection": "blocks",
         "oracles": [],
         "assumptions": ["a block's header equality is decided on the real headers; the model computes the scalar header fields itself and is given the Merkle roots of the states involved"],
     },
     "C07": {
-        "modules": ["C07", "C07Chain", "PinC07"],
+        "modules": ["C07", "C07Chain", "C07Hist", "PinC07"],
         "streams": [{"name": "chain", "quick": 90, "thorough": 4000}, {"name": "activation", "quick": 90, "thorough": 3200}, {"name": "merkle", "quick": 40, "thorough": 2400}],
         "projection": "chain",
         "oracles": [],
